@@ -25,3 +25,21 @@ func (t *Task) VerifC06Executing() bool {
 func VerifC06SetStopTimeout(d time.Duration) {
 	moduleStopTimeout = d
 }
+
+// VerifC06Unregister removes a registered module before Start (packages imported by the harness
+// register their modules in init; a scenario that does not need them runs without them).
+func VerifC06Unregister(name string) {
+	if modulesLocked.IsSet() {
+		return
+	}
+	delete(modules, name)
+}
+
+// VerifC06Registered lists the names of all registered modules.
+func VerifC06Registered() []string {
+	names := make([]string, 0, len(modules))
+	for name := range modules {
+		names = append(names, name)
+	}
+	return names
+}
